@@ -63,6 +63,7 @@ fn opcode(op: &Op) -> u64 {
         Op::Churn(_) => 29,
         Op::SendBurst(_) => 30,
         Op::Wakeup => 31,
+        Op::StreamPushSelfWake(_) => 32,
     }
 }
 
@@ -674,6 +675,27 @@ pub fn exec_op(op: &Op, ctx: Ctx) {
         Op::StreamPush(sel) => {
             if let Some(uid) = w(|w| resolve_any(w, *sel, ctx, &|s| s.stream.is_some())) {
                 stream_push(uid);
+            }
+        }
+        Op::StreamPushSelfWake(sel) => {
+            let Some(uid) = w(|w| resolve_any(w, *sel, ctx, &|s| s.stream.is_some())) else { return };
+            let wk = w(|w| {
+                let id = ((uid as u64) << 32) | w.next_msg;
+                w.next_msg += 1;
+                let st = w.srcs[uid].stream.clone()?;
+                let mut s = st.borrow_mut();
+                if s.ended {
+                    return None;
+                }
+                s.queue.push_back(id);
+                s.hidden.push_back(id);
+                s.pushed.push_back(id);
+                s.self_wakes_due += 1;
+                w.count("stream_push_self_wake");
+                s.waker.take()
+            });
+            if let Some(wk) = wk {
+                wk.wake();
             }
         }
         Op::StreamEnd(sel) => {
